@@ -110,6 +110,13 @@ def gen(rng):
     else:
         pre += pre_decls
         pre.append(mon_decl)
+    bauds = [9600]
+    if rng.random() < 0.3:
+        seq = rng.choice([[115200, 9600], [57600], [115200, 115200, 9600]])
+        for bi, bd in enumerate(seq):
+            pre.append(f"mon = SerialMonitor({bd})")
+            bauds.append(bd)
+            pre.append(marker("pre"))
     pre.append("count = 0")
     pre.append("acc = 1")
     if rng.random() < 0.6:
@@ -119,6 +126,26 @@ def gen(rng):
         pre.append("mon.write(f\"t={ta},{tb}\")")
         pre.append("tc = base + 3")
         pre.append("mon.write(tc)")
+    # a variable whose FIRST assignment sits inside a block of the run-once prologue, re-assigned (plain `=`) in the loop body
+    blk = None
+    if rng.random() < 0.6:
+        form = rng.choice(["if", "ifelse", "for", "while", "nested"])
+        if form == "if":
+            pre += ["if acc == 1:", "    blk = 5"]
+            blk = 5
+        elif form == "ifelse":
+            pre += ["if acc > 1:", "    blk = 5", "else:", "    blk = 6"]
+            blk = 6
+        elif form == "for":
+            pre += ["for fi in range(3):", "    blk = fi + 2"]
+            blk = 4
+        elif form == "while":
+            pre += ["wq = 0", "while wq < 3:", "    wq += 1", "    blk = wq * 2"]
+            blk = 6
+        else:
+            pre += ["for fi in range(2):", "    if fi == 1:", "        blk = 9", "    else:", "        blk = 3"]
+            blk = 9
+        pre.append("mon.write(f\"b0={blk}\")")
     # pre-loop statements with markers and actions
     for _ in range(rng.randint(1, 5)):
         pre.append(marker("pre"))
@@ -140,6 +167,9 @@ def gen(rng):
         body.append("count += 1")
         body.append("acc = acc + count")
         body.append("mon.write(f\"c={count} a={acc}\")")
+        if blk is not None:
+            body.append(rng.choice(["blk = blk + 1", "blk = 1 + blk", "blk = blk + count - count + 1"]))
+            body.append("mon.write(f\"b={blk}\")")
         for _ in range(rng.randint(1, 5)):
             body.append(marker("loop"))
             if devices and rng.random() < 0.7:
@@ -162,8 +192,9 @@ def gen(rng):
         if d["kind"] == "us":
             tapes["P"][str(d["pins"][1])] = [580, 1160, 0, 0, 0, 2000, 583]
     animated = any(".animate(" in x for x in pre)
+    baud_seq = bauds
     return "\n".join(L) + "\n", {"pre_ids": pre_ids, "loop_ids": loop_ids, "devices": devices, "has_main": has_main,
-                                 "animated_in_setup": animated and has_main}, tapes
+                                 "animated_in_setup": animated and has_main, "bauds": baud_seq, "blk": blk}, tapes
 
 
 USE_KINDS = {"DW", "AW", "DR", "AR", "TONE", "NOTONE", "PULSE"}
@@ -185,6 +216,7 @@ def monitor(events, meta, passes):
     motor = [d for d in meta["devices"] if d["kind"] == "motor"]
     motor_stopped = {d["name"]: 0 for d in motor}
     pass_events = {}
+    values = []
     for t, kind, f in events:
         if kind == "PASS":
             cur = int(f[0])
@@ -196,6 +228,8 @@ def monitor(events, meta, passes):
             text = trace.unesc(f[0])
             if "NOBEGIN" in f[2:]:
                 problems.append(("serial-before-begin", f"Serial used before Serial.begin (line {text!r})"))
+            if text.startswith("c=") or text.startswith("b=") or text.startswith("b0="):
+                values.append((cur, text))
             if text.startswith("S") and text[1:].isdigit():
                 n = int(text[1:])
                 if cur < 0:
@@ -242,6 +276,25 @@ def monitor(events, meta, passes):
         leaked = [n for n in got if n in pre_ids]
         if leaked:
             problems.append(("prologue-in-loop", f"pre-loop statements {leaked} executed again in pass {k}"))
+    # ---- variable lifetime: values carry over from the prologue and from pass to pass exactly as in Python
+    want = []
+    blk = meta.get("blk")
+    if blk is not None:
+        want.append((-1, f"b0={blk}"))
+    if meta["has_main"]:
+        acc = 1
+        for k in range(passes):
+            acc += k + 1
+            want.append((k, f"c={k + 1} a={acc}"))
+            if blk is not None:
+                want.append((k, f"b={blk + k + 1}"))
+    if values != want:
+        i = next((i for i, (a, b) in enumerate(zip(values, want)) if a != b), min(len(values), len(want)))
+        problems.append(("variable-lifetime", f"printed variable values (pass, text) {values[i:i + 2]}, Python's {want[i:i + 2]}"))
+    # ---- Serial.begin calls follow the declarations in source order
+    got_bauds = [int(f[0]) for t, kind, f in events if kind == "SBEGIN"]
+    if got_bauds != meta.get("bauds", got_bauds):
+        problems.append(("serial-begin-sequence", f"Serial.begin sequence {got_bauds}, declarations in source order {meta.get('bauds')}"))
     # ---- LCD animation tick: an animation started in setup() is advanced in the first pass (its first tick is never gated)
     if meta.get("animated_in_setup") and passes >= 1:
         if not any(kind == "LCD" and f[1] == "W" for kind, f in pass_events.get(0, [])):
